@@ -58,6 +58,17 @@ StateDiagOK == (Rec.op = "diagstate" /\ Done) =>
     /\ TableauOK(TRw(Rec.fwd), Rec.fwd.r) /\ Grp(TRw(Rec.fwd), Rec.fwd.r) = ZeroGroup(n) /\ Rec.fwd.r = 0
     /\ TableauOK(TRw(Rec.bwd), Rec.bwd.r) /\ Grp(TRw(Rec.bwd), Rec.bwd.r) = Grp(TRw(Rec.pre), Rec.pre.r)
 
+\* ... on registers too wide to enumerate the group: |0..0> is recognised row by row (a valid pure tableau whose
+\* stabilizer rows are +Z-only strings generates exactly the group of |0..0>); the re-encoded state is a valid pure
+\* tableau all of whose stabilizers commute with all stabilizers of the input (equal groups up to signs), and
+\* (model drift) it is the input row by row
+ZOnlyPlus(P) == P.k = 0 /\ \A q \in 1..NQ(P) : P.s[q] \in {0, 3}
+WideStateDiagOK == (Rec.op = "widediagstate" /\ Done) =>
+    LET n == Len(Rec.wpre.rows) \div 2  F == TRw(Rec.wfwd)  B == TRw(Rec.wbwd)  P0 == TRw(Rec.wpre) IN
+    /\ Rec.wfwd.r = 0 /\ TableauOK(F, 0) /\ \A j \in 1..n : ZOnlyPlus(F[j])
+    /\ Rec.wbwd.r = 0 /\ TableauOK(B, 0) /\ \A i, j \in 1..n : ~Anti(B[i], P0[j])
+    /\ Rec.wpre1 = Rec.wpre
+Drift_WideStateDiag == (Rec.op = "widediagstate" /\ Done) => Rec.wbwd.rows = Rec.wpre.rows
 \* SBRG: effective Hamiltonian of I/Z strings only; for commuting input the circuit maps H exactly onto it
 DecT(w) == [p |-> Dec(w[1]), c |-> <<w[2], w[3]>>, e |-> w[4]]
 Terms(ws) == [j \in 1..Len(ws) |-> DecT(ws[j])]
